@@ -36,8 +36,10 @@ fn check_px(k: &Coef, y: u8, cb: u8, cr: u8, got: &[u8], path: &'static str, rep
 pub fn run_c07(ctx: &Ctx) -> (Report, String) {
     let k = coef();
     // shards = Cr values; a scaled run takes every n-th Cr value
-    let step = (100 / ctx.scale_pct.clamp(1, 100)) as usize;
-    let crs: Vec<u8> = (0..256usize).filter(|c| c % step == 0).map(|c| c as u8).collect();
+    let miri = ctx.miri();
+    // under the interpreter: 16 Cr values (one per process), a few luma groups, a thinned remainder sweep
+    let step = if miri { 16 } else { (100 / ctx.scale_pct.clamp(1, 100)) as usize };
+    let crs: Vec<u8> = (0..256usize).filter(|c| c % step == 0).map(|c| (c + if miri { 7 } else { 0 }) as u8).collect();
     let results = par_shards(crs.len(), ctx.threads, |si| {
         let cr = crs[si];
         let mut rep = Report::new();
@@ -47,7 +49,7 @@ pub fn run_c07(ctx: &Ctx) -> (Report, String) {
             // ---- vector body: 512x2, chroma_b = 0..255, chroma_r = cr ----
             let cbp: Vec<u8> = (0..=255u8).collect();
             let crp = vec![cr; 256];
-            for yg in 0..64u32 {
+            for yg in (0..64u32).filter(|g| !miri || g % 32 == 5) {
                 let mut yp = vec![0u8; 1024];
                 for cx in 0..256usize {
                     // the four luma samples of chroma sample cx get Y = 4*yg + 0..3
@@ -75,7 +77,7 @@ pub fn run_c07(ctx: &Ctx) -> (Report, String) {
                 }
             }
             // ---- remainder path: 7x1; pixels 4..6 use chroma samples 2 and 3 ----
-            for cb in 0..=255u8 {
+            for cb in (0..=255u8).filter(|c| !miri || c % 64 == 9) {
                 let cbp = [cb ^ 0x5a, cb ^ 0xa5, cb, cb];
                 let crp = [cr ^ 0x33, cr ^ 0xcc, cr, cr];
                 let mut y0 = 0u32;
@@ -99,12 +101,15 @@ pub fn run_c07(ctx: &Ctx) -> (Report, String) {
                             return;
                         }
                     }
-                    y0 += 3;
+                    y0 += if miri { 48 } else { 3 };
                 }
             }
         });
         if let Err(p) = r {
             rep.violation(format!("panic@{}", p.loc), format!("conversion panicked: {}", p.msg), J::obj().set("property", "C07").set("kind", "panic"));
+        }
+        if miri {
+            return (rep, table);
         }
         // monotonicity inside this Cr slice: R,G,B non-decreasing in Y; B non-decreasing in Cb; G non-increasing in Cb
         let mut mono_checks = 0u64;
